@@ -494,7 +494,7 @@ func TestC30(t *testing.T) {
 	w := newWorld(t)
 	r := e.Rng
 
-	nFiles, perFile := e.Pick(28, 500), e.Pick(40, 80)
+	nFiles, perFile := e.Pick(28, 350), e.Pick(40, 80)
 	maxSize := e.Pick(300_000, 2_000_000)
 
 	cfgs := []fileCfg{
